@@ -391,8 +391,8 @@ def judge(R, x, out, st, kind, custom, tm, ts, bits, N, events, info, alt=None):
     detail = dict(nbad=int(bad.sum()), of=int(xf.size), x=float(xf[k]), got=float(of[k]), want=[float(lo[k]), float(hi[k])],
                   pre=float(v[k]), band=float(b[k]), mean=st['m'], std=s, tm=tm, ts=ts, bits=bits, **info)
     key = None
-    if alt is not None and alt.get('reliable') and not ds_custom and not alt['const']:
-        lo2, hi2, _, _ = bounds(xf, alt['m'], alt['s'], alt['em'], alt['rho'], tm, ts, bits)
+    if alt is not None and alt.get('reliable') and (ds_custom or not alt['const']):
+        lo2, hi2, _, _ = bounds(xf, alt['m'], s if ds_custom else alt['s'], alt['em'], rho if ds_custom else alt['rho'], tm, ts, bits)
         if not ((of < lo2) | (of > hi2)).any():
             key = ('refresh-schedule:refreshed-on-a-cached-call' if kind == 'cached'
                    else 'refresh-schedule:cached-on-a-refresh-call')
